@@ -724,13 +724,24 @@ Proof.
   apply (list_eqb_sound str_eqb); [intros; apply str_eqb_eq; assumption|exact H3].
 Qed.
 
+(** * the fragment *)
+Lemma suffix_preserved : forall search hash, hash_decidable hash = true -> url_suffix search hash = spec_suffix search hash.
+Proof.
+  intros search hash H. unfold url_suffix, spec_suffix, search_part, hash_part. f_equal.
+  destruct hash as [|c r]; [reflexivity|]. cbn [nonempty starts_with_hash fragment_of].
+  destruct (c =? hashc) eqn:E.
+  - apply N.eqb_eq in E. subst c. destruct r as [|d r']; [discriminate H|reflexivity].
+  - reflexivity.
+Qed.
+
 (** * C14_spec *)
 Theorem spec_C14_holds : forall names dflt base bsegs t a b inst old search hash,
-  valid names dflt t a b inst -> base_ok base bsegs -> old_ok_p dflt a old ->
+  valid names dflt t a b inst -> base_ok base bsegs -> old_ok_p dflt a old -> hash_decidable hash = true ->
   spec_C14 names dflt bsegs inst search hash b
     (get_new_path names dflt base (tabs_of (length names) t) (url_path names dflt bsegs a inst) search hash b old) = true.
 Proof.
   intros. rewrite (switch_ok names dflt base bsegs t a b inst old); auto.
+  rewrite suffix_preserved by assumption.
   unfold spec_C14, spec_switch, res_str_eqb. apply str_eqb_refl.
 Qed.
 
@@ -1097,11 +1108,12 @@ Qed.
 
 Theorem spec_first_match_holds : forall names dflt base bsegs t a b segs old path search hash,
   valid_url names dflt t a b segs -> base_ok base bsegs -> old_ok_p dflt a old ->
-  path_denotes names dflt bsegs a segs path ->
+  path_denotes names dflt bsegs a segs path -> hash_decidable hash = true ->
   spec_first_match names dflt bsegs t a b segs search hash
     (get_new_path names dflt base (tabs_of (length names) t) path search hash b old) = true.
 Proof.
   intros. rewrite (switch_first_match names dflt base bsegs t a b segs old path); auto.
+  rewrite suffix_preserved by assumption.
   unfold spec_first_match, res_str_eqb. apply str_eqb_refl.
 Qed.
 
@@ -1242,10 +1254,12 @@ Qed.
 
 Theorem spec_explicit_holds : forall names dflt base bsegs t a b segs path search hash,
   valid_url_explicit names t a b segs -> base_ok base bsegs -> path_denotes_explicit names bsegs a segs path ->
+  hash_decidable hash = true ->
   spec_first_match names dflt bsegs t a b segs search hash
     (get_new_path names dflt base (tabs_of (length names) t) path search hash b (Some a)) = true.
 Proof.
   intros. rewrite (switch_explicit names dflt base bsegs t a b segs path); auto.
+  rewrite suffix_preserved by assumption.
   unfold spec_first_match, res_str_eqb. apply str_eqb_refl.
 Qed.
 
@@ -1373,4 +1387,35 @@ Proof.
         apply str_eqb_eq in F. rewrite (N j ltac:(lia) F). reflexivity. }
       destruct od as [r|]; cbn [nonempty negb omres_eqb is_some andb]; [rewrite mres_eqb_refl|]; exact NS.
   - destruct od as [r|]; cbn [nonempty negb omres_eqb is_some andb]; [rewrite mres_eqb_refl|]; reflexivity.
+Qed.
+
+(** * the fragment over a history of switches *)
+Lemma fragment_of_hash_part : forall h, fragment_of (hash_part h) = fragment_of h.
+Proof.
+  intros h. unfold hash_part. destruct h as [|c r]; [reflexivity|]. cbn [nonempty starts_with_hash].
+  destruct (c =? hashc) eqn:E; [reflexivity|]. cbn [fragment_of]. rewrite N.eqb_refl, E. reflexivity.
+Qed.
+
+Lemma reparse_browser_fragment : forall h, fragment_of (reparse_hash true (hash_part h)) = fragment_of h.
+Proof.
+  intros h. unfold reparse_hash. rewrite fragment_of_hash_part.
+  destruct (fragment_of h) as [|c r] eqn:E; [reflexivity|]. cbn [nonempty fragment_of]. rewrite N.eqb_refl. reflexivity.
+Qed.
+
+(** on the client the fragment never changes, however many switches are made *)
+Theorem fragment_no_growth : forall n h, fragment_of (hash_after hash_part true n h) = fragment_of h.
+Proof.
+  induction n as [|n IH]; intro h; [reflexivity|]. cbn [hash_after]. rewrite IH. apply reparse_browser_fragment.
+Qed.
+
+(** with a test double that reports the bare fragment the same holds as long as the fragment does
+    not itself start with '#' (then the bare form is indistinguishable from the browser form) *)
+Theorem fragment_no_growth_bare : forall n h, starts_with_hash (fragment_of h) = false ->
+  fragment_of (hash_after hash_part false n h) = fragment_of h.
+Proof.
+  induction n as [|n IH]; intros h H; [reflexivity|]. cbn [hash_after].
+  assert (E : fragment_of (reparse_hash false (hash_part h)) = fragment_of h).
+  { unfold reparse_hash. rewrite fragment_of_hash_part.
+    destruct (fragment_of h) as [|c r] eqn:F; [reflexivity|]. cbn [starts_with_hash] in H. cbn [fragment_of]. rewrite H. reflexivity. }
+  rewrite IH; rewrite E; [reflexivity|exact H].
 Qed.
